@@ -17,6 +17,9 @@
 (*             timestamps, q1, q2 = the same with x's two results swapped (the     *)
 (*             structural time relations re-projected for that order)              *)
 (*         Mid{sc, ops, obs, x, m, p1, p2}   see TMid                               *)
+(*         Abort{sc}                         see TAbort                             *)
+(*         Cycle lines carry of[a]: the set was observed by a callback that then   *)
+(*             returned an error (obs = what was actually observed)                *)
 (*         every line carries conc: the operations since the last collection point *)
 (*             were issued by several goroutines at once (their order is unknown)  *)
 (* Reader data: [has, temp, dt, junk, pts[a]];  point: [p, x, v, n, s, b, z, sc,   *)
@@ -78,7 +81,7 @@ BagClauses(cf, R, b) ==
 (* several goroutines at once ({} = sequential cycle: exactly the model's last value)  *)
 ValueClauses(cf, E, R, adm) ==
   IF cf.agg = "last" /\ adm # {} THEN (IF R.v \notin adm THEN {"value"} ELSE {})
-  ELSE IF cf.agg \in {"sum", "last"} THEN (IF R.v # E.v THEN {"value"} ELSE {})
+  ELSE IF cf.agg \in {"sum", "last"} THEN (IF R.v # E.v /\ R.v # E.v2 THEN {"value"} ELSE {})
   ELSE LET c1 == BagClauses(cf, R, E.bag) IN
        IF c1 = {} THEN {} ELSE IF E.bag2 # E.bag /\ BagClauses(cf, R, E.bag2) = {} THEN {} ELSE c1
 
@@ -184,7 +187,7 @@ TCycle ==
   /\ l <= Len(Trace) /\ Trace[l].ev = "Cycle"
   /\ LET T == Trace[l]
          s1 == ApplyOps(C, st, T.ops)
-         s2 == DoCollect(C, s1, T.obs)
+         s2 == DoCollectF(C, s1, T.obs, T.of)
          m1 == NextMon(C, mon, T.d)
          shape == ShapeOK(C, T.d) /\ ShapeOK(C, T.c)
          viols == IF ~shape THEN {[rd |-> "?", a |-> 0, clause |-> "shape"]}
@@ -261,9 +264,14 @@ TMid ==
         /\ \A v \in viols : Viol([line |-> l, sc |-> T.sc, rd |-> v.rd, a |-> v.a, clause |-> v.clause, over |-> "mid-" \o x])
   /\ l' = l + 1 /\ UNCHANGED C
 
+(* Abort: a collection point whose Collect context was cancelled / expired (Collect     *)
+(* returned the context's error).  It reports nothing and is no cycle of the statement:  *)
+(* nothing changes, and the next healthy cycle is judged as always.                      *)
+TAbort == /\ l <= Len(Trace) /\ Trace[l].ev = "Abort" /\ l' = l + 1 /\ UNCHANGED <<C, st, mon>>
+
 TDone == l = Len(Trace) + 1 /\ Accepted(l) /\ UNCHANGED vars
 
-Next == TNew \/ TCycle \/ TOver \/ TMid \/ TDone
+Next == TNew \/ TCycle \/ TOver \/ TMid \/ TAbort \/ TDone
 Spec == Init /\ [][Next]_vars
 
 (* the statement holds on the model image of every real history, at every step *)
